@@ -470,6 +470,33 @@ func genC02(r *Rand, n int, tier string, emit func(string)) {
 	for _, s := range small {
 		out(s.entries[0], s.b)
 	}
+	// nested sums (ledger failure reasons, query leaves): every list of the input cut short at
+	// every length — the decoders index into the item lists they were handed
+	for _, st := range sumTypes {
+		if st.path == nil || len(st.variants) == 0 {
+			continue
+		}
+		for _, v := range []sumVariant{st.variants[0], st.variants[r.Intn(len(st.variants))]} {
+			root, _ := st.build(v)
+			nn := root.count()
+			for i := 0; i < nn; i++ {
+				if k := root.nth(i); k.major != 4 {
+					continue
+				}
+				ln := len(root.nth(i).kids)
+				for j := 0; j < ln; j++ {
+					c := root.clone()
+					a := c.nth(i)
+					a.kids = a.kids[:j]
+					b := c.bytes()
+					out("sum:"+st.name, b)
+					if strings.Contains(st.name, "fail") {
+						out("txerr", b)
+					}
+				}
+			}
+		}
+	}
 	nBig := n / 40
 	for i := 0; i < nBig && len(big) > 0; i++ {
 		s := big[r.Intn(len(big))]
